@@ -136,3 +136,39 @@ Proof.
   unfold EncodeUTF16String at 1. rewrite IsUTF16BE_Encode. apply string_roundtrip. exact Hv.
 Qed.
 
+
+(* ---------------------------------------------------------------- the unescaped literal
+   primitives/dateField.go stores its tooltip as types.StringLiteral(types.EncodeUTF16String(tip)),
+   i.e. WITHOUT Escape.  Read back by StringLiteralToString this is the identity only when the
+   UTF-16BE bytes contain no backslash (and, outside this model, no unbalanced parenthesis for the
+   PDF parser). *)
+
+Definition no_backslash (b : list N) : bool := forallb (fun c => negb (c =? 0x5c)) b.
+
+Lemma unescape_loop_plain : forall s out, no_backslash s = true ->
+  unescape_loop s (clean out) = Ok (clean (rev s ++ out)).
+Proof.
+  induction s as [| c s IH]; intros out H; [reflexivity |].
+  cbn [no_backslash forallb] in H. apply andb_true_iff in H as [Hc Hs].
+  cbn [unescape_loop]. unfold unescape_step, clean. cbn [u_long u_oct u_out u_esc is_nil negb andb].
+  rewrite Hc. cbn [andb]. fold (clean (c :: out)). rewrite (IH (c :: out) Hs).
+  cbn [rev]. rewrite <- app_assoc. reflexivity.
+Qed.
+
+Lemma Unescape_plain : forall s, no_backslash s = true -> Unescape s = Ok s.
+Proof.
+  intros s H. unfold Unescape. fold (clean []). rewrite unescape_loop_plain by exact H. unfold clean.
+  cbn [u_oct u_out is_nil negb]. rewrite app_nil_r, rev_involutive. reflexivity.
+Qed.
+
+Lemma unescaped_literal_partial : forall s, utf8_valid s = true ->
+  no_backslash (EncodeUTF16String s) = true ->
+  StringLiteralToString (EncodeUTF16String s) = Ok s.
+Proof.
+  intros s Hv Hn. unfold StringLiteralToString. rewrite Unescape_plain by exact Hn.
+  unfold EncodeUTF16String at 1. rewrite IsUTF16BE_Encode. apply string_roundtrip. exact Hv.
+Qed.
+
+Lemma unescaped_literal_refuted :
+  exists s, utf8_valid s = true /\ StringLiteralToString (EncodeUTF16String s) <> Ok s.
+Proof. exists [0x5c]. split; [reflexivity |]. vm_compute. discriminate. Qed.
